@@ -33,6 +33,11 @@ def _should_set_millisecond(cr, marking_type):
     # A datetime with a sub-second part serializes with a "." and would be
     # switched to millisecond precision when parsed back (see above), so do
     # the same now; otherwise serializing is not stable across a round trip.
+    # (It is the UTC value which gets serialized: a UTC offset may have a
+    # sub-second part of its own.)
+    offset = cr.utcoffset() if hasattr(cr, 'utcoffset') else None
+    if offset is not None and offset.microseconds:
+        return True
     return bool(getattr(cr, 'microsecond', 0))
 
 
